@@ -205,7 +205,15 @@ func (fx *FuncCtx) step(st *State, in ssa.Instruction) (forks []*State, ended bo
 					f.locals[id.Name] = localAddr{P: pv}
 				}
 			} else if _, isAddr := f.locals[id.Name].(localAddr); !isAddr {
-				f.locals[id.Name] = st.val(x.X)
+				nv := st.val(x.X)
+				if old, ok := f.locals[id.Name]; !ok || valKey(old) != valKey(nv) {
+					// a (re)definition, not a mere use: remember where the value comes from
+					if f.localBlk == nil {
+						f.localBlk = map[string]*ssa.BasicBlock{}
+					}
+					f.localBlk[id.Name] = f.blk
+				}
+				f.locals[id.Name] = nv
 			}
 		}
 	case *ssa.Call:
@@ -493,8 +501,17 @@ func (fx *FuncCtx) ptrEq(a, b PtrVal) Term {
 
 // bytesEq is content equality of two byte ranges: length equality and an uninterpreted content predicate.
 func (fx *FuncCtx) bytesEq(st *State, ab PtrVal, aoff, alen Term, bb PtrVal, boff, blen Term) Term {
-	fx.decls["bytes_eq"] = Sort{K: -1}
 	aa, ba := st.baseArr(ab).Arr, st.baseArr(bb).Arr
+	for _, l := range []Term{alen, blen} {
+		if l.C != nil && l.C.IsInt64() && l.C.Int64() <= 32 {
+			cs := []Term{Eq(alen, blen)}
+			for k := int64(0); k < l.C.Int64(); k++ {
+				cs = append(cs, Eq(Select(aa, BVAdd(aoff, i64(k))), Select(ba, BVAdd(boff, i64(k)))))
+			}
+			return And(cs...)
+		}
+	}
+	fx.decls["bytes_eq"] = Sort{K: -1}
 	c := Term{S: fmt.Sprintf("(bytes_eq %s %s %s %s %s)", aa.S, aoff.S, ba.S, boff.S, alen.S), So: SBool}
 	return And(Eq(alen, blen), c)
 }
@@ -506,7 +523,11 @@ func (fx *FuncCtx) convert(st *State, x *ssa.Convert) Value {
 	switch {
 	case isIntType(from) && isIntType(to):
 		so, _ := sortOfType(to)
-		return Resize(v.(Term), so.W, isSignedType(from))
+		if t, ok := v.(Term); ok {
+			return Resize(t, so.W, isSignedType(from))
+		}
+		fx.warn("unsafe pointer/integer conversion at %s yields an unknown value", fx.siteText(f.fn, x.Pos(), "conv"))
+		return fx.Fresh(to, "unsafeint")
 	case isIntType(from) && isFloatType(to):
 		t := v.(Term)
 		if isSignedType(from) {
